@@ -122,6 +122,12 @@ def socket_case(fx, mode, shape, creator, nconn, ncalls, rec, r, sername, race):
                     out.append(("exc", type(x).__name__))
             results[i] = out
             if i % 2 == 0:
+                if i % 4 == 0 and p._pyroConnection is not None:
+                    # every other closing client goes away abortively (RST): the connection has ended all the same
+                    import socket as _s
+                    import struct as _st
+                    p._pyroConnection.sock.setsockopt(_s.SOL_SOCKET, _s.SO_LINGER, _st.pack("ii", 1, 0))
+                    rec.count("abortive_closes")
                 p._pyroRelease()
             else:
                 results[("keep", i)] = p
